@@ -471,6 +471,9 @@ class C10(IRProp):
         finally:
             P.join_byte_intervals = orig
         for b, a in (m.aux_data["alignment"].data.items() if "alignment" in m.aux_data else ()):
+            if isinstance(b, gtirb.ByteBlock) and (b.byte_interval is None or b.module is not m):
+                # a requirement that nothing can meet any more: the block it names was merged away or removed
+                return (f"the alignment table names a block (alignment {a}) that is not in the module after the rewrite", None)
             if isinstance(b, gtirb.ByteBlock) and b.address is not None and b.address % a != 0:
                 # known finding: of the blocks of one interval only the first one with an alignment entry is padded for, so a block
                 # created by `.align` inside a patch that lands behind another aligned block of the same interval stays misaligned
